@@ -26,6 +26,10 @@ CHECKS = {
    text="Exploration: frame sequences (settings incl. unknown ids, WINDOW_UPDATE/PRIORITY before and after SETTINGS, HEADERS with PADDED/PRIORITY/CONTINUATION, with/without preface) are drawn by seed; every single cut of fixed short streams is enumerated, multi-way chunkings sampled. Checked: at most one report, on the chunk completing the first SETTINGS frame, equal to the one-shot result on that prefix, and the one-shot result equal to an independent reference model string and SHA-256 prefix.",
    note="The reference model is 30 lines of harness code over the generator's structure (not over parsed bytes). An empty first SETTINGS frame is treated as unspecified by the statement: only incremental == one-shot is required there.",
    design="4/C17"),
+ "C19": dict(engine="netsim", technique="deterministic simulation with simulated wall and monotonic clocks (hook H1, clock-redirected ttl_cache), clock-jump faults, seeded + enumerated (rate x boundary gap) timestamp histories; per-packet comparison with an executable model of the statement",
+   text="Exploration: both hosts' timestamp clocks (steady at boundary/OS-typical/every-integer rates, out-of-range, jittering, stalled, stepping backward, wrapping), gaps drawn around 25 ms/100 ms/30 s/600 s, interleaved second connection, ports on both sides of the role heuristic, wall-clock jumps. Every timestamped segment is judged against a 60-line model (grid rounding, uptime decomposition, wrap period, role rule, bad-marker). Systematic part: every integer rate 1..1500 (quick: every 7th) x boundary gaps.",
+   note="Model assumptions: the rate of a pair is ticks*1000/ms as the analyzer observed them; with fewer than 5 ticks of movement either outcome is accepted; an entry is assumed to live at least 30 s and at most judged within 10 min; after a wall-clock jump endpoints whose reference predates the jump are no longer judged (narrow relaxation). One open known finding (backward movement).",
+   design="4/C19"),
 }
 
 def main():
